@@ -115,6 +115,10 @@ def sampling_checks(ctx, predict, p, S, wit, label):
               p1_freq=f[det1][:5].tolist(), p0_freq=f[det0][:5].tolist(), wit=wit)
     again = np.asarray(predict(0))
     r1, r2 = np.asarray(predict(np.random.RandomState(12345))), np.asarray(predict(np.random.RandomState(12345)))
+    for mk in (np.int64, np.int32, np.uint32):  # seeds that come out of numpy (arange elements, randint draws, SeedSequence words)
+        a1, a2 = np.asarray(predict(mk(7))), np.asarray(predict(mk(7)))
+        ctx.ev("reproducibility_checks")
+        ctx.check(bool(np.array_equal(a1, a2)), "same_numpy_integer_seed_different_predictions:" + label, seed_type=mk.__name__, wit=wit)
     ctx.ev("reproducibility_checks", 2)
     ctx.check(bool(np.array_equal(first, again)), "same_seed_different_predictions:" + label, wit=wit)
     # (how an int seed relates to a RandomState is not part of the property: only equal states must give equal answers)
@@ -251,6 +255,24 @@ def run_eg_class(ctx, rng, S):
     ctx.ev("mixture_rows_compared", len(p_b))
     ctx.check(bool(np.allclose(p_b, mix[perm], atol=1e-12)) and bool(np.allclose(p_a, mix, atol=1e-12)),
               "pmf_of_a_query_edited_in_place_is_not_the_mixture_of_its_current_rows", before=p_a[:8].tolist(), after=p_b[:8].tolist(), expected_after=mix[perm][:8].tolist(), wit=wit)
+    if rng.random() < 0.4:
+        # the same estimator fitted again on other data after it has answered queries: the pmf must describe the NEW fit
+        ds2 = ML.make_dataset(rng, nmin=12, nmax=40, kmax=3, feature_levels=int(ds.X[:, 0].max()) + 1, control=ds.c is not None)
+        kw2 = {"sensitive_features": ds2.g}
+        if ds2.c is not None:
+            kw2["control_features"] = ds2.c
+        eg.fit(pd.DataFrame(ds2.X, index=rng.permutation(ds2.n)) if pandas_aware else ds2.X, ds2.y, **kw2)
+        w2 = eg.weights_
+        mix2 = np.zeros(len(Xe))
+        for t in w2.index:
+            if w2[t] != 0:
+                mix2 += float(w2[t]) * np.asarray(eg.predictors_[t].predict(Xe), float)
+        p2 = np.asarray(eg._pmf_predict(Xe))[:, 1]
+        ctx.ev("mixture_rows_compared", len(p2))
+        ctx.check(bool(np.allclose(p2, mix2, atol=1e-12)), "pmf_after_a_refit_is_not_the_mixture_of_the_new_predictors", got=p2[:8].tolist(), expected=mix2[:8].tolist(),
+                  new_weights={str(k): float(v) for k, v in w2.items()}, wit=wit)
+        mix = mix2[np.argsort(perm)] if False else None
+        return
     for i in (0, len(Xe) - 1):
         one = np.asarray(eg._pmf_predict(Xe[i:i + 1]))
         ctx.ev("mixture_rows_compared")
